@@ -234,6 +234,25 @@ def drive_c19(tier, seed, cfg):
                                   dict(property="C19", text=full, args=["report", alias], fmt=fmt, stdout=so[:600].decode("utf-8", "replace"))))
             if alias != "copy.txt" and i % 3:
                 break
+        # the same run in another environment: temporary directory reached through a symbolic link (the default on some
+        # systems: /tmp -> private/tmp) - stdout must be byte-identical (seeded change C19-d compared a resolved path
+        # with an unresolved one)
+        link = os.path.join(os.path.dirname(tmp), "tmp-link-%d" % i)
+        if not os.path.lexists(link):
+            os.symlink(tmp, link)
+        for fmt in ("json", "csv"):
+            for ch in (("file",) if i % 2 else ("file", "stdin")):
+                args = ["--quiet", "report"] + (["--csv"] if fmt == "csv" else []) + (["own.tjp"] if ch == "file" else [])
+                if ch == "file" and not os.path.exists(os.path.join(cwd, "own.tjp")):
+                    with open(os.path.join(cwd, "own.tjp"), "wb") as f:
+                        f.write(full.encode("utf-8"))
+                rc, so, se = run_plan(args, cwd, link, full.encode("utf-8") if ch == "stdin" else None)
+                loc["invocations"] += 1
+                loc["symlinked-tmpdir-invocations"] += 1
+                ref0 = got.get(("own", fmt, "file", 0))
+                if ref0 and (rc, so) != ref0:
+                    out_v.append(("output-depends-on-tmpdir-spelling", dict(fmt=fmt, channel=ch, rc=rc, stdout=so[:160], stderr=se[-200:], reference=(ref0[0], ref0[1][:160])),
+                                  dict(property="C19", text=full, args=args, fmt=fmt, tmpdir="symbolic link to the real directory", stdout=so[:600].decode("utf-8", "replace"))))
         # file == stdin, repeated runs identical, own reports do not change the rows
         for vname, _ in variants:
             for fmt in ("json", "csv"):
